@@ -282,6 +282,10 @@ impl JTracker {
             pre.buffer == post.buffer && pre.trade_log.len() == post.trade_log.len() && pre.next_id == post.next_id,
             "delete_order touched the pending buffer, the trade log or the id counter"
         );
+        rule!(
+            ctx, "C17", "book-in-admission-order", "delete", post.book.windows(2).all(|w| w[0].order_id < w[1].order_id),
+            "book after delete_order is not in admission (id) order: {:?}", post.book.iter().map(|o| o.order_id).collect::<Vec<_>>()
+        );
         if pos.is_some() {
             if let Some(i) = self.by_id.get(&id) {
                 if self.recs[*i].status == St::Resting {
@@ -772,6 +776,16 @@ impl JTracker {
                 }
             }
         }
+        // the book is kept in admission order: ids grow from front to back (time priority), so the
+        // fills of a tick come out in ascending id
+        rule!(
+            ctx, "C17", "book-in-admission-order", "tick", post_ids.windows(2).all(|w| w[0] < w[1]),
+            "book after tick is not in admission (id) order: {:?}", post_ids
+        );
+        rule!(
+            ctx, "C17", "fill-order", "tick-ids", fills.windows(2).all(|w| w[0].oid < w[1].oid) || !pre_ids.windows(2).all(|w| w[0] < w[1]),
+            "fills of one tick are not in admission (id) order: {:?}", fills.iter().map(|f| f.oid).collect::<Vec<_>>()
+        );
         rule!(ctx, "C03", "buffer-cleared", "tick", post.buffer.is_empty(), "pending buffer not empty after tick: {} orders", post.buffer.len());
         {
             let ok = post.trade_log.len() == pre.trade_log.len() + fills.len()
